@@ -29,7 +29,7 @@ Act(p, act, a, b) ==
       [] act = "SendList" -> SendList
       [] act = "Hello" -> Hello(p)
       [] act = "RecvList" -> RecvList(p)
-      [] act = "Dial" -> Dial(p) /\ pc[p][2] = b /\ DialTarget(p) = a
+      [] act = "Dial" -> DialTo(p, a) /\ pc[p][2] = b
       [] act = "Accept" -> Accept(p)
       [] act = "ReadHello" -> ReadHello(p)
       [] act = "AFirst" -> AFirst(p) /\ acur[p][1] = a /\ acur[p][3] = b
@@ -42,7 +42,7 @@ AtGate(p, point, a, b) ==
       [] point = "SendList" -> pc[p] = <<"sendlist">>
       [] point = "Hello" -> pc[p] = <<"hello.pre">>
       [] point = "RecvList" -> pc[p] = <<"hello.post">>
-      [] point = "Dial" -> pc[p][1] = "dial" /\ pc[p][2] = b /\ DialTarget(p) = a
+      [] point = "Dial" -> pc[p][1] = "dial" /\ pc[p][2] = b /\ a \in DialChoices(p)
       [] point = "Accept" -> apc[p] = "accept.pre"
       [] point = "ReadHello" -> apc[p] = "accept.post"
       [] point = "AFirst" -> apc[p] = "first" /\ acur[p][1] = a /\ acur[p][3] = b
